@@ -63,6 +63,13 @@ func runOracles(res *Result, prop string, c *Case) {
 		oracleC10(res, c)
 	case "C13":
 		oracleC13(res, c)
+		if c.Err != nil {
+			h1, ok1 := hopsReal(c.Err, 1)
+			h3, ok3 := hopsReal(c.Err, 3)
+			if ok1 && ok3 {
+				oracleLayerRefs(res, c, "C13", c.Err, h1, h3)
+			}
+		}
 	case "C19":
 		oracleC19(res, c)
 	case "C11":
@@ -288,6 +295,41 @@ func oracleC08(res *Result, c *Case) {
 			}
 		}
 	}
+	// Mark(e, r) matches every reference equivalent to r in addition to what e matched; marks
+	// accumulate: a second Mark on top keeps the first
+	var marks []error
+	for _, r := range c.Refs {
+		if r != nil && len(marks) < 2 {
+			marks = append(marks, r)
+		}
+	}
+	if len(marks) == 2 {
+		var m1, m2 error
+		if ok, pv := catch(func() { m1 = errors.Mark(e, marks[0]); m2 = errors.Mark(m1, marks[1]) }); !ok || m1 == nil || m2 == nil {
+			res.fail(c, "C08.mark", fmt.Sprintf("Mark panicked or returned nil: %v", pv), "C08:mark-panic")
+			return
+		}
+		chk := func(name string, subj, ref error) {
+			res.OracleEvals["C08.mark"]++
+			if isRes(subj, ref) != "true" {
+				res.fail(c, "C08.mark", name+" does not hold", "C08:mark:"+name)
+			}
+		}
+		chk("Is(Mark(e,r1),r1)", m1, marks[0])
+		chk("Is(Mark(Mark(e,r1),r2),r2)", m2, marks[1])
+		chk("Is(Mark(Mark(e,r1),r2),r1)", m2, marks[0])
+		chk("Is(Mark(Mark(e,r1),r2),Mark(e,r1))", m2, m1)
+		chk("Is(Mark(Mark(e,r1),r2),e)", m2, e)
+		for i, r := range c.Refs {
+			if isRes(e, r) == "true" {
+				chk(fmt.Sprintf("Is(e,ref %d) => Is(Mark(Mark(e,r1),r2),ref)", i), m2, r)
+			}
+		}
+		if h, ok := hopsReal(m2, 1); ok {
+			chk("after a hop: Is(Mark(Mark(e,r1),r2),r1)", h, marks[0])
+			chk("after a hop: Is(Mark(Mark(e,r1),r2),r2)", h, marks[1])
+		}
+	}
 }
 
 // ---------------------------------------------------------------------
@@ -354,6 +396,7 @@ func oracleC02(res *Result, c *Case) {
 			res.fail(c, "C02.ref_transferred", fmt.Sprintf("ref %d: Is(e,r)=%s Is(e,hop r)=%s", i, a0, b), "C02:ref:"+a0+"->"+b)
 		}
 	}
+	oracleLayerRefs(res, c, "C02", e, h1, h3)
 }
 
 // ---------------------------------------------------------------------
@@ -642,6 +685,47 @@ func oracleC11(res *Result, c *Case) {
 			}
 			res.fail(c, "C11.accessors_after_hops", fmt.Sprintf("after %d hop(s) accessor %q differs", k, which), "C11:"+which)
 			return
+		}
+	}
+}
+
+// oracleLayerRefs: identity of every layer survives transfer (C02), inside multi-cause branches
+// too (C13).
+func oracleLayerRefs(res *Result, c *Case, pid string, e, h1, h3 error) {
+	// every layer of e as a reference (at any position: the branches of multi-cause nodes
+	// included), through Is and through IsAny with the reference first and last: after a hop
+	// no layer is identical to it any more, every match is by mark equivalence
+	other := errors.New("unrelated reference")
+	isAny := func(x error, refs ...error) string {
+		out := "false"
+		if ok, _ := catch(func() {
+			if errors.IsAny(x, refs...) {
+				out = "true"
+			}
+		}); !ok {
+			return "panic"
+		}
+		return out
+	}
+	for j, n := range nodesOfErr(e, nil) {
+		if j >= 16 {
+			break
+		}
+		a0 := isRes(e, n)
+		for _, st := range []struct {
+			name string
+			h    error
+		}{{"1hop", h1}, {"3hops", h3}} {
+			res.OracleEvals[pid+".layer_as_reference"]++
+			if a := isRes(st.h, n); a != a0 {
+				res.fail(c, pid+".layer_as_reference", fmt.Sprintf("layer %d (%T): Is(e,layer)=%s after %s %s", j, n, a0, st.name, a), pid+":layer-is:"+st.name)
+			}
+			if a := isAny(st.h, other, n); a != a0 {
+				res.fail(c, pid+".layer_as_reference", fmt.Sprintf("layer %d (%T): Is(e,layer)=%s, IsAny(hop e, other, layer) after %s = %s", j, n, a0, st.name, a), pid+":layer-isany:"+st.name)
+			}
+			if a := isAny(st.h, n, other); a != a0 {
+				res.fail(c, pid+".layer_as_reference", fmt.Sprintf("layer %d (%T): Is(e,layer)=%s, IsAny(hop e, layer, other) after %s = %s", j, n, a0, st.name, a), pid+":layer-isany:"+st.name)
+			}
 		}
 	}
 }
